@@ -773,7 +773,7 @@ inductive SOp where
   | write (id : Nat) (v : Str)   -- `write_async` with a fresh pending future
   | complete (key : Nat)         -- the future of the `key`-th write gets its value
   | err (b e : Nat) (m : Str)
-  | seal (b : Nat)
+  | sealErr (b : Nat)
   | inc (id : Nat)
   | start                        -- `pending_data()`
   | poll                         -- one `poll_next`
@@ -795,7 +795,7 @@ def Trace.step (p g : Nat → Bool) (t : Trace) : SOp → Trace
   | .write id v => { t with srv := t.srv.writeAsync t.log.length id v, log := t.log ++ [(id, v)] }
   | .complete k => { t with srv := t.srv.complete k }
   | .err b e m => { t with srv := t.srv.registerError b e m }
-  | .seal b => { t with srv := t.srv.seal b }
+  | .sealErr b => { t with srv := t.srv.seal b }
   | .inc i => { t with srv := t.srv.setIncomplete i }
   | .start => { t with srv := t.srv.start p g }
   | .poll => { t with srv := (t.srv.poll p g).2, emitted := t.emitted ++ pollEmits t.srv }
@@ -835,9 +835,7 @@ theorem poll_buf (p g : Nat → Bool) (s : Srv) :
     (s.poll p g).2.buf = match s.phase with
       | .streaming => pendingOf s.buf
       | _ => s.buf := by
-  unfold Srv.poll
-  split <;> try rfl
-  simp only
+  cases hp : s.phase <;> simp only [Srv.poll, hp]
   split
   · rfl
   · split <;> rfl
@@ -849,7 +847,7 @@ theorem poll_done_buf_empty (p g : Nat → Bool) (s : Srv) (h : s.phase = .strea
   split at hd
   · next hc =>
     simp only [Bool.and_eq_true, List.isEmpty_iff] at hc
-    simp [hc.1]
+    simp [hc.1, hc.2]
   · split at hd <;> simp [h] at hd
 
 theorem count_ready_pending (k : Nat) (b : List Entry) :
@@ -916,7 +914,8 @@ theorem mem_completeIn {k : Nat} {e : Entry} {b : List Entry} (h : e ∈ complet
 /-- the invariant of the data stream -/
 structure Inv (t : Trace) : Prop where
   asWritten : ∀ e ∈ t.emitted ++ t.srv.buf, t.log[e.key]? = some (e.id, e.val)
-  once : ∀ k, ((t.emitted ++ t.srv.buf).map (·.key)).count k = if k < t.log.length then 1 else 0
+  once : ∀ k, k < t.log.length → ((t.emitted ++ t.srv.buf).map (·.key)).count k = 1
+  fresh : ∀ k, t.log.length ≤ k → ((t.emitted ++ t.srv.buf).map (·.key)).count k = 0
   ready : ∀ e ∈ t.emitted, e.ready = true
 
 theorem inv_init : Inv Trace.init := by
@@ -927,7 +926,15 @@ theorem inv_same_buf (t t' : Trace) (h : Inv t) (hb : t'.srv.buf = t.srv.buf)
   constructor
   · rw [he, hb, hl]; exact h.asWritten
   · rw [he, hb, hl]; exact h.once
+  · rw [he, hb, hl]; exact h.fresh
   · rw [he]; exact h.ready
+
+theorem count_write (t : Trace) (id : Nat) (v : Str) (k : Nat) :
+    ((t.emitted ++ (t.srv.buf ++ [⟨t.log.length, id, v, false⟩])).map (·.key)).count k
+      = ((t.emitted ++ t.srv.buf).map (·.key)).count k + (if t.log.length = k then 1 else 0) := by
+  simp only [List.map_append, List.count_append, List.map_cons, List.map_nil, List.count_cons,
+    List.count_nil, beq_iff_eq]
+  omega
 
 theorem inv_step (p g : Nat → Bool) (t : Trace) (op : SOp) (h : Inv t) : Inv (t.step p g op) := by
   cases op with
@@ -945,16 +952,17 @@ theorem inv_step (p g : Nat → Bool) (t : Trace) (op : SOp) (h : Inv t) : Inv (
       · simp only [List.mem_singleton] at he
         subst he
         simp
-    · intro k
-      have := h.once k
-      simp only [Trace.step, Srv.writeAsync, ← List.append_assoc, List.map_append, List.count_append,
-        List.map_cons, List.map_nil, List.count_cons, List.count_nil, List.length_append,
-        List.length_cons, List.length_nil] at this ⊢
-      by_cases hk : t.log.length = k
-      · subst hk; simp at this ⊢; omega
-      · have : (t.log.length == k) = false := by simpa using hk
-        simp only [this, Bool.false_eq_true, if_false]
-        split <;> split at * <;> omega
+    · intro k hk
+      simp only [Trace.step, Srv.writeAsync, List.length_append, List.length_cons, List.length_nil] at hk ⊢
+      rw [count_write]
+      by_cases hkl : t.log.length = k
+      · rw [h.fresh k (by omega)]; simp [hkl]
+      · rw [h.once k (by omega)]; simp [hkl]
+    · intro k hk
+      simp only [Trace.step, Srv.writeAsync, List.length_append, List.length_cons, List.length_nil] at hk ⊢
+      rw [count_write, h.fresh k (by omega)]
+      have : t.log.length ≠ k := by omega
+      simp [this]
     · exact h.ready
   | complete k =>
     constructor
@@ -965,12 +973,19 @@ theorem inv_step (p g : Nat → Bool) (t : Trace) (op : SOp) (h : Inv t) : Inv (
       · obtain ⟨e', he', h1, h2, h3⟩ := mem_completeIn he
         rw [h1, h2, h3]
         exact h.asWritten e' (List.mem_append_right _ he')
-    · intro j
-      have := h.once j
-      simpa only [Trace.step, Srv.complete, List.map_append, completeIn_keys] using this
+    · intro j hj
+      have := h.once j hj
+      simp only [List.map_append] at this
+      simp only [Trace.step, Srv.complete, List.map_append, completeIn_keys]
+      exact this
+    · intro j hj
+      have := h.fresh j hj
+      simp only [List.map_append] at this
+      simp only [Trace.step, Srv.complete, List.map_append, completeIn_keys]
+      exact this
     · exact h.ready
   | err b e m => exact inv_same_buf t _ h rfl rfl rfl
-  | seal b => exact inv_same_buf t _ h rfl rfl rfl
+  | sealErr b => exact inv_same_buf t _ h rfl rfl rfl
   | inc i => exact inv_same_buf t _ h rfl rfl rfl
   | start =>
     refine inv_same_buf t _ h ?_ rfl rfl
@@ -982,6 +997,12 @@ theorem inv_step (p g : Nat → Bool) (t : Trace) (op : SOp) (h : Inv t) : Inv (
     | streaming =>
       simp only [hp] at hb
       have hem : pollEmits t.srv = readyOf t.srv.buf := by simp [pollEmits, hp]
+      have hcount : ∀ k, ((t.emitted ++ readyOf t.srv.buf ++ pendingOf t.srv.buf).map (·.key)).count k
+          = ((t.emitted ++ t.srv.buf).map (·.key)).count k := by
+        intro k
+        have hc := count_ready_pending k t.srv.buf
+        simp only [List.map_append, List.count_append]
+        omega
       constructor
       · intro e he
         simp only [Trace.step, hb, hem] at he ⊢
@@ -990,11 +1011,12 @@ theorem inv_step (p g : Nat → Bool) (t : Trace) (op : SOp) (h : Inv t) : Inv (
           · exact h.asWritten e (List.mem_append_left _ he)
           · exact h.asWritten e (List.mem_append_right _ (mem_readyOf he).1)
         · exact h.asWritten e (List.mem_append_right _ (mem_pendingOf he))
-      · intro k
-        have := h.once k
-        have hc := count_ready_pending k t.srv.buf
-        simp only [Trace.step, hb, hem, List.map_append, List.count_append] at this ⊢
-        omega
+      · intro k hk
+        simp only [Trace.step, hb, hem] at hk ⊢
+        rw [hcount]; exact h.once k hk
+      · intro k hk
+        simp only [Trace.step, hb, hem] at hk ⊢
+        rw [hcount]; exact h.fresh k hk
       · intro e he
         simp only [Trace.step, hem] at he
         rcases List.mem_append.mp he with he | he
@@ -1017,13 +1039,21 @@ theorem inv_run (p g : Nat → Bool) (ops : List SOp) : ∀ t, Inv t → Inv (Tr
 
 /-- **each exactly once**: after any sequence of writes, completions (in any order, at any
 time), error registrations and polls, every written value is either still pending in the buffer
-or has been emitted — never both, never twice -/
+or has been emitted — never both, never twice; and nothing that was not written is emitted -/
 theorem C12_each_once (p g : Nat → Bool) (ops : List SOp) (k : Nat) :
     let t := Trace.run p g Trace.init ops
-    (t.emitted.map (·.key)).count k + (t.srv.buf.map (·.key)).count k
-      = if k < t.log.length then 1 else 0 := by
-  have := (inv_run p g ops _ inv_init).once k
-  simpa only [List.map_append, List.count_append] using this
+    (k < t.log.length →
+      (t.emitted.map (·.key)).count k + (t.srv.buf.map (·.key)).count k = 1) ∧
+    (t.log.length ≤ k →
+      (t.emitted.map (·.key)).count k + (t.srv.buf.map (·.key)).count k = 0) := by
+  have h := inv_run p g ops _ inv_init
+  constructor
+  · intro hk
+    have := h.once k hk
+    simpa only [List.map_append, List.count_append] using this
+  · intro hk
+    have := h.fresh k hk
+    simpa only [List.map_append, List.count_append] using this
 
 /-- what is emitted is what was written: under the id it was written with, with its value, and only
 after its future completed -/
@@ -1042,9 +1072,9 @@ theorem C12_each_once_at_end (p g : Nat → Bool) (ops : List SOp) :
   intro t hs hd k hk
   have h := inv_step p g t .poll (inv_run p g ops _ inv_init)
   have hb : (t.step p g .poll).srv.buf = [] := poll_done_buf_empty p g t.srv hs hd
-  have := h.once k
+  have := h.once k (by simpa [Trace.step] using hk)
   rw [hb] at this
-  simpa [Trace.step, hk] using this
+  simpa using this
 
 /-- non-vacuity: two values completed in reverse order; both chunks carry exactly one of them -/
 example :
